@@ -72,7 +72,7 @@ def main():
                     if os.path.exists(rp):
                         shutil.copy(rp, os.path.join(dest, "replay-" + os.path.basename(rp)))
         finally:
-            sh("git -C /repo checkout -- .")
+            sh("git -C /repo reset -q --hard HEAD")
             for sub in ("evidence", "replays"):
                 shutil.rmtree("/verif/" + sub, ignore_errors=True); shutil.copytree(keep + "/" + sub, "/verif/" + sub)
             shutil.rmtree(keep, ignore_errors=True)
